@@ -126,12 +126,43 @@ def block_guard(body, bb, names=None):
             c.append(("" if na[0] else "!") + na[1])
         if not dead:
             out.append(sorted(set(c)))
-    # dedupe
-    seen = []
+    return simplify_dnf(out)
+
+
+def simplify_dnf(out):
+    """drop contradictory conjunctions (a && !a), duplicates and absorbed conjunctions; merge c&&a || c&&!a -> c"""
+    cs = []
     for c in out:
-        if c not in seen:
-            seen.append(c)
-    return seen
+        sc = set(c)
+        if any(("!" + a) in sc for a in sc if not a.startswith("!")):
+            continue
+        if sc not in cs:
+            cs.append(sc)
+    changed = True
+    while changed:
+        changed = False
+        for i in range(len(cs)):
+            for j in range(len(cs)):
+                if i != j and cs[i] is not None and cs[j] is not None:
+                    a, b = cs[i], cs[j]
+                    if a < b:
+                        cs[j] = None
+                        changed = True
+                        continue
+                    d1, d2 = a - b, b - a
+                    if len(d1) == 1 and len(d2) == 1:
+                        x, y = next(iter(d1)), next(iter(d2))
+                        if x == "!" + y or y == "!" + x:
+                            cs[i] = a & b
+                            cs[j] = None
+                            changed = True
+        cs = [c for c in cs if c is not None]
+        uniq = []
+        for c in cs:
+            if c not in uniq:
+                uniq.append(c)
+        cs = uniq
+    return [sorted(c) for c in cs]
 
 
 def guard_str(g):
